@@ -16,7 +16,7 @@ fn lambda(arity: u16, multi: bool, tag: u32) -> Gc<ByteCodeLambda> {
 /// operand stack [IntV(v0), .., IntV(v4)] with symbolic contents
 fn any_stack() -> (Vec<SteelVal>, [isize; L]) {
     let vals: [isize; L] = kani::any();
-    let mut s = Vec::new();
+    let mut s = Vec::with_capacity(16);
     let mut i = 0;
     while i < L {
         s.push(SteelVal::IntV(vals[i]));
@@ -373,4 +373,129 @@ fn subimmediate_arm_contract() {
             assert!(t.stack.len() == 2);
         }
     }
+}
+
+// ------------------------------------------------------------------ the TCOJMP arm of the interpreter loop
+fn tcojmp_arm_check(multi: bool, passed: u32) {
+    let (stack, vals) = any_stack();
+    let arity: u16 = if multi { 2 } else { kani::any() };
+    kani::assume(arity <= 2);
+    let gap: bool = kani::any();
+    let fsp: usize = L - passed as usize - if gap { 1 } else { 0 };
+    let me = lambda(arity, multi, 5);
+    let mut t = thread_with(stack, fsp, me.clone(), 3);
+    let mut vm = core_on(&mut t, fsp, me.body);
+    let r = vm.arm_tcojmp(u24::from_u32(passed));
+    let ip1 = vm.ip;
+    drop(vm);
+    assert!(t.stack_frames.len() == 4, "a self tail call must not grow the frame stack");
+    if !multi {
+        if passed as usize != arity as usize {
+            assert!(matches!(r, Err(e) if e.kind == ErrorKind::ArityMismatch));
+        } else {
+            assert!(r.is_ok() && ip1 == 0);
+            assert!(t.stack.len() == fsp + passed as usize);
+            let mut j = 0;
+            while j < passed as usize {
+                assert!(int_at(&t.stack, fsp + j) == Some(vals[L - passed as usize + j]));
+                j += 1;
+            }
+        }
+    } else if passed < 1 {
+        assert!(matches!(r, Err(e) if e.kind == ErrorKind::ArityMismatch));
+    } else {
+        // (define (f a . rest)): the new frame is [a, (rest ...)]
+        assert!(r.is_ok() && ip1 == 0);
+        assert!(t.stack.len() == fsp + 2, "the frame of a variadic self tail call is cut at the wrong slot");
+        assert!(int_at(&t.stack, fsp) == Some(vals[L - passed as usize]), "first parameter lost in a variadic self tail call");
+        match &t.stack[fsp + 1] {
+            SteelVal::ListV(l) => {
+                assert!(l.0.len() == passed as usize - 1);
+                let mut k = 0;
+                while k < passed as usize - 1 {
+                    assert!(matches!(l.0[k], SteelVal::IntV(v) if v == vals[L - passed as usize + 1 + k]));
+                    k += 1;
+                }
+            }
+            _ => assert!(false, "rest arguments must arrive as one list"),
+        }
+    }
+    let mut i = 0;
+    while i < fsp {
+        assert!(int_at(&t.stack, i) == Some(vals[i]), "values below the frame were touched");
+        i += 1;
+    }
+}
+
+#[kani::proof]
+#[kani::unwind(7)]
+fn tcojmp_arm_contract() {
+    tcojmp_arm_check(false, 1);
+    tcojmp_arm_check(false, 2);
+    tcojmp_arm_check(true, 0);
+    tcojmp_arm_check(true, 1);
+    tcojmp_arm_check(true, 2);
+}
+
+// ------------------------------------------------------------------ host-initiated calls leave no residue
+fn call_with_args_check(arity: u16, nargs: usize, leaves: usize, fails: bool) {
+    let (stack, vals) = any_stack();
+    let callee = lambda(arity, false, 2);
+    let mut t = thread_with(stack, 0, lambda(0, false, 1), 0);
+    let depth0 = t.stack_frames.len();
+    unsafe {
+        CALLEE_ENTERED = 0;
+        CALLEE_LEAVES = leaves;
+        CALLEE_FAILS = fails;
+    }
+    let a: isize = kani::any();
+    let b: isize = kani::any();
+    let mut vm = core_on(&mut t, 0, code(1));
+    let r = if nargs == 0 {
+        vm.call_with_args(&callee, core::iter::empty())
+    } else if nargs == 1 {
+        vm.call_with_args(&callee, [SteelVal::IntV(a)])
+    } else {
+        vm.call_with_args(&callee, [SteelVal::IntV(a), SteelVal::IntV(b)])
+    };
+    drop(vm);
+    let entered = unsafe { CALLEE_ENTERED };
+    if nargs != arity as usize {
+        assert!(matches!(r, Err(e) if e.kind == ErrorKind::ArityMismatch) && entered == 0, "a host call with the wrong number of arguments must not run the function");
+    } else {
+        assert!(entered == 1);
+        unsafe {
+            assert!(CALLEE_STACK_LEN == L + nargs && CALLEE_SP == L, "the callee must see exactly the given arguments above the old stack");
+        }
+        assert!(r.is_ok() == !fails);
+    }
+    assert!(t.stack.len() == L, "a finished or failed host call left values on the operand stack");
+    assert!(t.stack_frames.len() == depth0, "a finished or failed host call left a frame behind");
+    let mut i = 0;
+    while i < L {
+        assert!(int_at(&t.stack, i) == Some(vals[i]));
+        i += 1;
+    }
+}
+
+/// the call happens: value or error, with or without temporaries left by the callee
+#[kani::proof]
+#[kani::unwind(7)]
+fn call_with_args_leaves_no_residue() {
+    call_with_args_check(1, 1, 2, true);
+}
+
+#[kani::proof]
+#[kani::unwind(7)]
+fn call_with_args_ok_leaves_no_residue() {
+    call_with_args_check(2, 2, 1, false);
+}
+
+/// (b)-half / fixed: the call is rejected for its argument count before the function runs
+#[kani::proof]
+#[kani::unwind(7)]
+fn call_with_args_arity_error_leaves_no_residue() {
+    call_with_args_check(1, 2, 0, false);
+    call_with_args_check(2, 1, 0, false);
+    call_with_args_check(0, 1, 0, false);
 }
